@@ -36,6 +36,8 @@ var protoID = protocol.ID("/" + netID + "/header-ex/v0.0.3")
 type dlHost struct {
 	host.Host
 	honour bool
+	// latency: every inbound stream is handled this much later (virtual); 0 = instantly
+	latency time.Duration
 }
 
 func (h *dlHost) NewStream(ctx context.Context, p peer.ID, pids ...protocol.ID) (network.Stream, error) {
@@ -47,11 +49,20 @@ func (h *dlHost) NewStream(ctx context.Context, p peer.ID, pids ...protocol.ID) 
 }
 
 func (h *dlHost) SetStreamHandler(pid protocol.ID, handler network.StreamHandler) {
-	if !h.honour {
+	if !h.honour && h.latency == 0 {
 		h.Host.SetStreamHandler(pid, handler)
 		return
 	}
-	h.Host.SetStreamHandler(pid, func(s network.Stream) { handler(&dlStream{Stream: s}) })
+	h.Host.SetStreamHandler(pid, func(s network.Stream) {
+		if h.latency > 0 {
+			time.Sleep(h.latency)
+		}
+		if !h.honour {
+			handler(s)
+			return
+		}
+		handler(&dlStream{Stream: s})
+	})
 }
 
 type dlStream struct {
